@@ -349,18 +349,20 @@ func VerifH_C20_Registry() {
 	f1 := func() string { return "one" }
 	f2 := func() string { return "two" }
 	switch verifChoose(6) {
-	case 0: // package level: visible to expressions compiled afterwards only
-		before, _ := Compile(`$g()`)
-		if err := RegisterExts(map[string]Extension{"g": {Func: f1}}); err != nil {
+	case 0: // package level: visible to expressions compiled afterwards only (a name no other case uses:
+		// natively the replays of one batch share the process and so the package-level registry)
+		gname := "gpkg" + string(rune('a'+verifRun()%26)) + string(rune('a'+verifRun()/26%26))
+		before, _ := Compile("$" + gname + "()")
+		if err := RegisterExts(map[string]Extension{gname: {Func: f1}}); err != nil {
 			verifFail("registry-valid-registration")
 			return
 		}
-		mid, _ := Compile(`$g()`)
-		if err := RegisterExts(map[string]Extension{"g": {Func: f2}}); err != nil {
+		mid, _ := Compile("$" + gname + "()")
+		if err := RegisterExts(map[string]Extension{gname: {Func: f2}}); err != nil {
 			verifFail("registry-valid-registration")
 			return
 		}
-		after, _ := Compile(`$g()`)
+		after, _ := Compile("$" + gname + "()")
 		o0, o1, o2 := hEvalExpr(before, nil), hEvalExpr(mid, nil), hEvalExpr(after, nil)
 		verifAssert(o0.kind == oEvalError && o0.etype == ErrNonCallable, "package-registration-not-retroactive")
 		verifAssert(o1.kind == oValue && o1.val == "one", "package-registration-visible-to-later-compile")
